@@ -26,7 +26,7 @@ RULE = ("cases = generated (mu, 6-D state at distance > 1e-3 from both primaries
         "with both primaries within distance 3; distinct by (mu, state) rounded to 6 significant digits")
 ASSUMPTIONS = [
     "energy clause asserted as d/dtau E_lib(s + tau*f_lib(s)) = 0 (Richardson central difference) with tolerance 1e-7*sum|terms| + rounding floor",
-    "trajectory clause: |dE| <= 1e-6*energy scale on benign arcs (distance to primaries >= 0.05 along the reference arc), adaptive rtol/atol as configured by the library default",
+    "trajectory clause: |dE| <= 1e-6*energy scale on benign arcs (distance to primaries >= 0.12 along the densely sampled reference arc), adaptive rtol/atol as configured by the library default",
     "states within 1e-3 of a primary are outside the domain (statement: away from the two primaries)",
 ]
 
@@ -205,10 +205,11 @@ def eval_traj(case, ctx):
     except Exception:
         ctx.case(cls="traj:reference-failed")
         return
-    ts = np.linspace(0, tf, 200)
+    ts = np.linspace(0, tf, 1500)
     Y = ref.sol(ts).T
     dmin = min(min(O.distances(y, mu)) for y in Y)
-    if dmin < 0.05 or np.max(np.abs(Y)) > 10:
+    # benign arcs only (densely sampled): close approaches are where the integration accuracy itself (C02) degrades
+    if dmin < 0.12 or np.max(np.abs(Y)) > 10:
         ctx.case(cls="traj:not-benign")
         return
     sysm = _system(mu)
